@@ -307,3 +307,111 @@ Proof.
 Qed.
 
 End Front.
+
+(* ================= the spliced texts, read off the record ================= *)
+Definition frag_cut (u : url) : N := match fragment_start u with Some n => n | None => nlen (ser u) end.
+Definition query_cut (u : url) : N := match query_start u with Some n => n | None => frag_cut u end.
+(* the old serialization with '#' x in the fragment position / '?' x in the query position *)
+Definition splice_fragment (u : url) (x : list N) : list N := nfirstn (frag_cut u) (ser u) ++ 35 :: x.
+Definition splice_query (u : url) (x : list N) : list N :=
+  nfirstn (query_cut u) (ser u) ++ 63 :: x ++ nskipn (frag_cut u) (ser u).
+
+Lemma qf_frag_cut pre se ue hs he hi pt ps q f :
+  nfirstn (frag_cut (qf_url pre se ue hs he hi pt ps q f)) (ser (qf_url pre se ue hs he hi pt ps q f)) = pre ++ qf_qtext q
+  /\ nskipn (frag_cut (qf_url pre se ue hs he hi pt ps q f)) (ser (qf_url pre se ue hs he hi pt ps q f)) = qf_ftext f.
+Proof.
+  unfold frag_cut, qf_url. cbn [fragment_start ser]. unfold qf_text. destruct f as [y|]; cbn [qf_fs qf_ftext].
+  - rewrite <- nlen_app, app_assoc. split; [apply nfirstn_app_len | apply nskipn_app_len].
+  - rewrite app_nil_r. split; [apply nfirstn_all; lia|]. rewrite <- (app_nil_r (pre ++ qf_qtext q)) at 2. apply nskipn_app_len.
+Qed.
+
+Lemma qf_query_cut pre se ue hs he hi pt ps q f :
+  nfirstn (query_cut (qf_url pre se ue hs he hi pt ps q f)) (ser (qf_url pre se ue hs he hi pt ps q f)) = pre.
+Proof.
+  unfold query_cut. destruct q as [t|].
+  - unfold qf_url. cbn [query_start qf_qs ser]. apply nfirstn_app_len.
+  - change (nfirstn (frag_cut (qf_url pre se ue hs he hi pt ps None f)) (ser (qf_url pre se ue hs he hi pt ps None f)) = pre).
+    rewrite (proj1 (qf_frag_cut pre se ue hs he hi pt ps None f)). cbn [qf_qtext]. apply app_nil_r.
+Qed.
+
+Section SpliceQF.
+Variable dbg : bool.
+Variable hp hpo : list N -> result host.
+Variable hd : host -> list N.
+Hypothesis HRT : HostRT hp hpo hd.
+
+Notation Canon := (Canon hp hpo hd).
+
+(* every canonical record has the shape of C02_SetQF with a front the parser runs through *)
+Lemma Canon_qf u : Canon u ->
+  exists pre st se ue hs he hi pt ps q f,
+    u = qf_url pre se ue hs he hi pt ps q f /\ qf_front dbg hp hpo hd pre st se ue hs he hi pt ps
+    /\ se <= nlen pre /\ scheme_type_of (nfirstn se pre) = st
+    /\ opt_clean (query_set st) q /\ opt_clean T_FRAGMENT f.
+Proof.
+  intros [sch P q f K | sch segs last q f K | sch ui h pt p q f K | sch ui h pt p q f K Kp].
+  - destruct (opaque_pre_sch sch P) as [S1 S2].
+    do 11 eexists. split; [apply opaque_url_qf|]. split; [exact (front_opaque dbg hp hpo hd sch P q f K)|].
+    split; [exact S2|]. split; [rewrite S1; exact (ok_ns _ _ _ _ K)|]. split; [exact (ok_q _ _ _ _ K) | exact (ok_f _ _ _ _ K)].
+  - destruct (noauth_pre_sch sch (path_text segs last)) as [S1 S2].
+    do 11 eexists. split; [apply noauth_url_qf|]. split; [exact (front_noauth dbg hp hpo hd sch segs last q f K)|].
+    split; [exact S2|]. split; [rewrite S1; exact (nk_ns _ _ _ _ _ K)|]. split; [exact (nk_q _ _ _ _ _ K) | exact (nk_f _ _ _ _ _ K)].
+  - destruct (auth_pre_sch hd sch ui h pt p) as [S1 S2].
+    do 11 eexists. split; [apply auth_url_qf|]. split; [exact (front_auth dbg hp hpo hd HRT sch ui h pt p q f K)|].
+    split; [exact S2|]. split; [rewrite S1; exact (ak_st _ _ _ _ _ _ _ _ _ _ _ K)|].
+    split; [exact (ak_q _ _ _ _ _ _ _ _ _ _ _ K) | exact (ak_f _ _ _ _ _ _ _ _ _ _ _ K)].
+  - destruct (auth_pre_sch hd sch ui h pt p) as [S1 S2].
+    do 11 eexists. split; [apply auth_url_qf|]. split; [exact (front_special dbg hp hpo hd HRT sch ui h pt p q f K Kp)|].
+    split; [exact S2|]. split; [rewrite S1; exact (ak_st _ _ _ _ _ _ _ _ _ _ _ K)|].
+    split; [exact (ak_q _ _ _ _ _ _ _ _ _ _ _ K) | exact (ak_f _ _ _ _ _ _ _ _ _ _ _ K)].
+Qed.
+
+Lemma qtext_usv S q : opt_clean S q -> usv_list (qf_qtext q).
+Proof.
+  destruct q as [t|]; [|constructor]. cbn [opt_clean qf_qtext]. intros H.
+  apply usv_cons. split; [unfold is_usv; lia | apply ascii_usv; apply (clean_ascii S); exact H].
+Qed.
+
+(* WHOLE-URL agreement for set_fragment: the record the setter returns is the record the parser returns for the
+   old serialization with '#' and the RAW argument in the fragment position.  The argument must not end in a C0
+   control or a space (Url::parse trims them from the input; the setter encodes them) - nothing else. *)
+Theorem splice_agreement_set_fragment u x u' : Canon u -> usv_list x -> first_ok (rev (35 :: x)) ->
+  set_fragment dbg u (Some x) = Some u' -> nlen (ser u') <= U32_MAX_P ->
+  parse_url dbg hp hpo hd None None (splice_fragment u x) = POk u'.
+Proof.
+  intros C Hx Hl. destruct (Canon_qf u C) as (pre & st & se & ue & hs & he & hi & pt & ps & q & f & -> & Hfront & Hse & Hst & Hq & Hf).
+  rewrite set_fragment_qf_some by exact Hx. intros E Hb. inversion E; subst u'. clear E.
+  unfold splice_fragment. rewrite (proj1 (qf_frag_cut pre se ue hs he hi pt ps q f)). rewrite <- app_assoc.
+  apply Hfront.
+  - destruct q as [t|]; cbn [qf_qtext app qh_ok]; split; reflexivity.
+  - destruct q; discriminate.
+  - apply usv_app. split; [exact (qtext_usv _ q Hq)|]. apply usv_cons. split; [unfold is_usv; lia | exact Hx].
+  - apply first_ok_rev_app2; [discriminate | exact Hl].
+  - apply pqf_canon_raw_f; [exact Hx | exact Hq | exact Hb].
+Qed.
+
+(* WHOLE-URL agreement for set_query: argument free of '#' (the parser's query state stops there, the setter
+   encodes it); when the URL has no fragment the argument must not end in a C0 control or a space *)
+Theorem splice_agreement_set_query u x u' : Canon u -> usv_list x -> no_hash x = true ->
+  (fragment_start u = None -> first_ok (rev (63 :: x))) ->
+  set_query dbg u (Some x) = Some u' -> nlen (ser u') <= U32_MAX_P ->
+  parse_url dbg hp hpo hd None None (splice_query u x) = POk u'.
+Proof.
+  intros C Hx Hh Hl. destruct (Canon_qf u C) as (pre & st & se & ue & hs & he & hi & pt & ps & q & f & -> & Hfront & Hse & Hst & Hq & Hf).
+  rewrite (set_query_qf_some dbg pre se ue hs he hi pt ps (nfirstn se pre) eq_refl Hse q f x Hx). rewrite Hst.
+  intros E Hb. inversion E; subst u'. clear E.
+  unfold splice_query. rewrite qf_query_cut, (proj2 (qf_frag_cut pre se ue hs he hi pt ps q f)).
+  apply Hfront.
+  - split; reflexivity.
+  - discriminate.
+  - apply usv_cons. split; [unfold is_usv; lia|]. apply usv_app. split; [exact Hx|].
+    destruct f as [y|]; [|constructor]. cbn [qf_ftext]. apply usv_cons. split; [unfold is_usv; lia|].
+    apply ascii_usv. apply (clean_ascii T_FRAGMENT). exact Hf.
+  - destruct f as [y|]; cbn [qf_ftext].
+    + change (63 :: x ++ 35 :: y) with ((63 :: x) ++ 35 :: y). apply first_ok_rev_app; [discriminate|].
+      constructor; [reflexivity|]. apply forallb_above. exact (clean_forallb _ _ y kept_FRAGMENT_above Hf).
+    + rewrite app_nil_r. apply Hl. reflexivity.
+  - apply pqf_raw_q_canon; [exact Hx | exact Hh | exact Hf | exact Hb].
+Qed.
+
+End SpliceQF.
